@@ -75,6 +75,8 @@ def gen_toc(rng, max_entries):
     # target-counter(…, pages), backwards and (since da41776 repaired target-counter-pages-forward-crash) forwards
     pages_ref = rng.random() < (0.6 if where == 'back' else 0.3)
     margin = rng.random() < 0.5
+    # the entry also prints the number of its own page: the box is re-parsed with the page counters of ITS page
+    own_page = rng.random() < 0.35
     css = (
         f'@page {{ size: 200px {lines_per_page * 10 + (20 if margin else 0)}px; margin: 0; '
         + (f'margin-bottom: 20px; @bottom-center {{ content: counter(page) "/" counter(pages); font-size: 10px }} '
@@ -83,7 +85,8 @@ def gen_toc(rng, max_entries):
         'p, h2 { margin: 0; font-size: 10px; font-weight: normal }'
         f'.toc {{ width: {toc_chars * 10}px }}'
         'a { display: block }'
-        f'a::after {{ content: target-counter(attr(href), page, {style}) }}'
+        f'a::after {{ content: target-counter(attr(href), page, {style})' + (' "@" counter(page)' if own_page else '') + ' }'
+
         + ('h2::after { content: " " counter(page) "-" counter(pages)'
            + (' "|w w w w w w w"' if long_mark else '') + ' }' if pages_in_content else '')
         + ('h2 { width: 50px }' if long_mark else '')
@@ -182,8 +185,23 @@ def observe(document):
                 marks[key] = (old[0], old[1] + (box.text if isinstance(box, boxes.TextBox) else ''))
             elif box.element is not None and '::' not in tag and box.element.get('id'):
                 targets.setdefault(box.element.get('id'), index)
-    return (list(labels.values()), targets, [(i, t.strip().split('|')[0]) for i, t in marks.values()],
-            len(document.pages))
+    return ([(href, text.split('@')[0], index) for href, text, index in labels.values()], targets,
+            [(i, t.strip().split('|')[0]) for i, t in marks.values()], len(document.pages))
+
+
+def observe_own_pages(document):
+    """[(href, text after "@", page index)] of the `a::after` boxes that also print `counter(page)`; the page is
+    that of the first fragment of the generated box (text or not)."""
+    from weasyprint.formatting_structure import boxes
+    first, texts = {}, {}
+    for index, page in enumerate(document.pages):
+        for box in page._page_box.descendants():
+            if (box.element_tag or '') == 'a::after':
+                key = id(box.element)
+                first.setdefault(key, (box.element.get('href'), index))
+                if isinstance(box, boxes.TextBox):
+                    texts[key] = texts.get(key, '') + box.text
+    return [(first[key][0], text.split('@', 1)[1], first[key][1]) for key, text in texts.items() if '@' in text]
 
 
 def observe_pages_refs(document):
